@@ -188,6 +188,9 @@ def build_schema(desc: dict) -> dict:
         if params:
             op["parameters"] = params
         paths["/o%d" % i] = {"get": op}
+    if desc.get("shape") == "twin":       # same path, no parameters, no payload: the prepared requests differ by the method only
+        paths["/t"] = {"put": {"operationId": "twinPut", "responses": {"200": {"description": "ok"}}},
+                       "delete": {"operationId": "twinDelete", "responses": {"200": {"description": "ok"}}}}
     if desc.get("links"):
         paths["/res"] = {"post": {
             "operationId": "createRes",
@@ -200,7 +203,11 @@ def build_schema(desc: dict) -> dict:
             "parameters": [{"name": "id", "in": "path", "required": True, "schema": {"type": "integer"}}],
             "responses": {"200": {"description": "ok"}, "404": {"description": "nf"}},
         }}
-    return {"openapi": "3.0.2", "info": {"title": "t", "version": "1"}, "paths": paths}
+    doc = {"openapi": "3.0.2", "info": {"title": "t", "version": "1"}, "paths": paths}
+    if desc.get("shape") == "authprobe":
+        doc["components"] = {"securitySchemes": {"ApiKey": {"type": "apiKey", "in": "header", "name": "X-Key"}}}
+        doc["security"] = [{"ApiKey": []}]
+    return doc
 
 
 class RunHang(BaseException):
@@ -229,12 +236,17 @@ def run_one(desc: dict, controller: "Recorder | None" = None) -> dict:
     # a worker / state-machine thread dying with an uncaught exception is an observation (TDEATH line), not console noise
     threading.excepthook = lambda args: rec.emit({"e": "TDEATH", "err": getattr(args.exc_type, "__name__", "?")})
     nops = len(desc["ops"])
-    extra_ops = 2 if desc.get("links") else 0
+    extra_ops = 2 if (desc.get("links") or desc.get("shape") == "twin") else 0
+    assert not (desc.get("links") and desc.get("shape", "plain") != "plain")
     for i in range(1, nops + 1):
         rec.op_of_label["GET /o%d" % i] = i
     if desc.get("links"):
         rec.op_of_label["POST /res"] = nops + 1
         rec.op_of_label["GET /res/{id}"] = nops + 2
+    if desc.get("shape") == "twin":
+        rec.op_of_label["PUT /t"] = nops + 1
+        rec.op_of_label["DELETE /t"] = nops + 2
+    culprits: set = set()      # test-case ids of the requests whose answer makes a check fail
     digests: dict = {}
     counter = {"n": 0}
 
@@ -263,6 +275,10 @@ def run_one(desc: dict, controller: "Recorder | None" = None) -> dict:
             elif beh == "neterr":
                 bad = True
                 status = -1
+        elif r.path == "/t":
+            op = nops + 1 if r.method == "PUT" else nops + 2
+            if r.method == "DELETE":
+                status, bad = 500, True
         elif r.path == "/res":
             op = nops + 1
             counter["n"] += 1
@@ -271,6 +287,11 @@ def run_one(desc: dict, controller: "Recorder | None" = None) -> dict:
             op = nops + 2
             if desc.get("links") == "bad":
                 status, bad = 500, True
+        if desc.get("shape") == "authprobe" and status == 200 and r.header("X-Key", "") != "secret":
+            bad = True      # the API serves a request that lacks the configured credential: what ignored_auth reports
+        if bad:
+            with rec.lock:
+                culprits.add(r.header("X-Schemathesis-TestCaseId", ""))
         volatile = {"x-schemathesis-testcaseid", "host", "user-agent", "accept-encoding", "connection", "content-length", "accept"}
         key = (r.method, r.target, r.body, tuple(sorted((k.lower(), v) for k, v in r.headers if k.lower() not in volatile)))
         with rec.lock:
@@ -305,11 +326,20 @@ def run_one(desc: dict, controller: "Recorder | None" = None) -> dict:
             max_examples=desc.get("max_examples", 3), deadline=None, database=None, derandomize=False,
             stateful_step_count=desc.get("step_count", 3), suppress_health_check=list(hypothesis.HealthCheck),
         )
+        extra_cfg: dict = {}
+        extra_exec: dict = {}
+        if desc.get("shape") == "authprobe":
+            from schemathesis.checks import not_a_server_error
+            from schemathesis.engine.config import NetworkConfig
+            from schemathesis.specs.openapi.checks import ignored_auth
+
+            extra_cfg["network"] = NetworkConfig(headers={"X-Key": "secret"})
+            extra_exec["checks"] = [not_a_server_error, ignored_auth]
         config = EngineConfig(execution=ExecutionConfig(
             phases=[phase_names[p] for p in desc["phases"]], hypothesis_settings=settings, workers_num=desc.get("workers", 1),
             seed=desc.get("seed", 1), max_failures=desc.get("max_failures") or None, unique_inputs=bool(desc.get("unique")),
-            continue_on_failure=bool(desc.get("cof")),
-        ))
+            continue_on_failure=bool(desc.get("cof")), **extra_exec,
+        ), **extra_cfg)
         _verif.install(rec)
         profile_before = None
         if desc.get("profile_max"):
@@ -378,6 +408,12 @@ def run_one(desc: dict, controller: "Recorder | None" = None) -> dict:
                                         if case_id not in ev.recorder.cases or inter is None or inter.request is None \
                                                 or chk.failure_info is None or not chk.failure_info.code_sample:
                                             reqok = False
+                                        # ... and that request is the one whose answer the API got wrong (not e.g. its parent)
+                                        if desc.get("fault") is None and chk.name in ("not_a_server_error", "ignored_auth"):
+                                            with rec.lock:
+                                                blamed = case_id in culprits
+                                            if not blamed:
+                                                reqok = False
                             line["nfail"] = nfail
                             line["reqok"] = reqok
                     elif kind == "NFE":
